@@ -30,7 +30,7 @@ func TestC08(t *testing.T) {
 			nTr := rapid.IntRange(0, 1).Draw(rt, "nTransient")
 			h := newHist(nStores, nTr)
 			o := drawOpts(rt, "iavlCache", false)
-			onDisk := rapid.IntRange(0, 15).Draw(rt, "onDisk") == 0
+			onDisk := rapid.IntRange(0, 15).Draw(rt, "onDisk") == 7
 			nBlocks := rapid.IntRange(3, 12).Draw(rt, "nBlocks")
 			for i := 0; i < nBlocks; i++ {
 				b := h.genBlock(rt, 6)
